@@ -798,6 +798,11 @@ def check_terminal_links(ctx, F, rule="E-FREELIST.term.link"):
                 raise Return(v)
             return super().try_(it, v)
 
+        def equal(self, it, a, b):
+            if isinstance(a, Opaque) and isinstance(b, Opaque):
+                return a.what == b.what
+            return super().equal(it, a, b)
+
         def call(self, it, name, f, args_e, env, e):
             n = f.get("n", "")
             if n.endswith("ManuallyDrop::<T>::drop") or n.endswith("ManuallyDrop::drop"):
@@ -833,8 +838,20 @@ def check_terminal_links(ctx, F, rule="E-FREELIST.term.link"):
             if isinstance(recv, Rec) and name == "lock":
                 return recv.inner
             if isinstance(recv, Rec) and name == "find_or_find_insert_slot":
-                [it.ev(a, env) for a in e["a"][:1]]
+                _, clo = it.args(e, env)
+                for tid in getattr(recv, "entries", []):
+                    cl_env = dict(clo[2])
+                    for p_, a_ in zip(clo[1].get("params", []), [tid]):
+                        it.match(p_, a_, cl_env)
+                    if it.ev(clo[1]["body"], cl_env) is True:
+                        return Enum(OK, [("tslot", tid)])
                 return Enum(ERR, [Opaque("table slot")])
+            if isinstance(recv, Rec) and name == "get_at_slot_unchecked":
+                (sl,) = it.args(e, env)
+                return sl[1]
+            if isinstance(recv, Rec) and name == "retain" and hasattr(recv, "store"):
+                self.retained = getattr(self, "retained", []) + it.args(e, env)
+                return ()
             if isinstance(recv, Rec) and name == "insert_in_slot_unchecked":
                 self.inserted.append(it.args(e, env)[-1])
                 return ()
@@ -894,7 +911,7 @@ def check_terminal_links(ctx, F, rule="E-FREELIST.term.link"):
             n += 1
             st = store(6)
             st[4][0].next_free = 2
-            state = Rec(next_free=head, unique_table=Rec())
+            state = Rec(next_free=head, unique_table=Rec(entries=[1, 3]))
             me = Rec(store=st, state=Rec(inner=state))
             holder = {}
 
@@ -916,6 +933,25 @@ def check_terminal_links(ctx, F, rule="E-FREELIST.term.link"):
             if not ok:
                 fails.append("get_edge of a new value with the head at 4 (-> 2) yields %r, head %r, table insertions %r, reference count %r; expected "
                              "the edge of id 4, head 2, insertion of 4, count 2" % (val, state.next_free, holder["d"].inserted, rc))
+        # a value that is already stored (in slot 3): its id, one more reference, nothing popped, nothing inserted
+        n += 1
+        st = store(6)
+        state = Rec(next_free=4, unique_table=Rec(entries=[1, 3]))
+        me = Rec(store=st, state=Rec(inner=state))
+        holder = {}
+
+        def mk2(o):
+            holder["d"] = D()
+            return Interp(F, holder["d"], o)
+        outs = list(enumerate_runs(mk2, lambda it: it.call_fn(ge, [me, Opaque("v3")])))
+        if len(outs) != 1 or outs[0][1][0] != "ok":
+            raise Unrecognised(repr(outs[0][1] if outs else None))
+        val = outs[0][1][1]
+        ok = isinstance(val, Enum) and val.path == OK and val.args[0] == ("edge", 3) and state.next_free == 4 and not holder["d"].inserted \
+            and getattr(holder["d"], "retained", []) == [3]
+        if not ok:
+            fails.append("get_edge of the value stored in slot 3 yields %r (head %r, insertions %r, retained %r); expected the edge of id 3 with one "
+                         "more reference and no other change" % (val, state.next_free, holder["d"].inserted, getattr(holder["d"], "retained", [])))
     except Unrecognised as u:
         fails.append("get_edge not interpretable: %s" % u)
     except Panic as p:
